@@ -281,3 +281,27 @@ check("C16",
       "Modelled, not verified: Twisted Deferred / DelayedCall semantics and the Tub (hand-written dispatcher), normalvariate as mu + z*sigma, "
       "doubles as exact Q. A draw below -1/jitter (probability ~3e-17) gives a negative delay: stated, not hidden.",
       "Coq invariant induction over the translated state machine + exhaustive enumeration of permitted sequences compared inside Coq", "DESIGN.md 5/C16")
+
+check("C01",
+      "Theorems (Coq, unbounded; closed under the global context): for every well-formed canonical object term (nested "
+      "list/tuple/set/frozenset/dict/registered Copyable/call scopes, ints of any magnitude, floats as 64-bit words, "
+      "bytes/text/bool/None/Decimal, back-references incl. self-containing containers) the receiver's unslicer stack "
+      "machine, in any admissible state, consumes exactly the sender's token sequence and rebuilds exactly the denoted "
+      "graph (same node numbers, kinds, children, pointers: value, type and sharing) -- C01_run_slice, "
+      "C01_slice_unslice(_list); composed with the token/byte layer (C01_bytes_roundtrip, via stream_roundtrip); under any "
+      "vocabulary table with distinct indices (C01_vocab_transparent, C01_roundtrip_any_vocab); per-call scope: a call "
+      "refers only to objects opened inside itself and a later call's reference to anything outside it is refused "
+      "(C01_scope_refs_are_local, C01_scope_isolation_receiver); two refuted witnesses for the known-defective region "
+      "(tuple referenced from a Copyable attribute / dict key it contains). Chunk independence of the byte-level receiver "
+      "is C07's theorem. Tie: opentype / trackReferences / setObject-in-start / scoped classes / bool tokens translated "
+      "from the source on every run plus about 60 fail-closed shape facts; correspondence by vm_compute on 354 (quick) / "
+      "2224 (thorough) generated graphs, vocab switches and Broker calls: sender bytes = encode_stream(envocab(slice("
+      "canon_py g))), canon(unslice(decode real bytes)) = term, and the real receiver's graph under 1-chunk / bytewise / "
+      "random chunkings matched against the term; direct oracle: rooted graph isomorphism with type() at every node and "
+      "list/dict/set identity preserved both ways, no sharing between two calls.",
+      "Modelled, not verified: UTF-8 and struct '!d' codecs, Decimal(str(d)), Twisted Deferred completion of tuples / "
+      "frozensets in cycles (graphs whose tuple directly holds a reference to a still-open immutable are outside the "
+      "theorem guard: correspondence + oracle only), Python hash/== for dict/set membership, Copyable registration. "
+      "canon-inverts-denotation and the in-band set-vocab switch are checked per case by vm_compute, not proved in general.",
+      "Coq proof (nested induction over object terms, invariant over receiver states) + translation + correspondence + graph-isomorphism oracle",
+      "DESIGN.md 5/C01")
